@@ -47,7 +47,7 @@ def run(g, kw, block, specfile, specline):
             if any(e.startswith('@LIST') for e in evs):
                 from gen import LostAnchor
                 raise LostAnchor('variant %s has a list-of-entities field; operands() generator needs extending' % name)
-            lines.append('pub open spec fn operands_%s(e: &%s) -> Seq<Ev> { seq![%s] }' % (name, name, ', '.join(evs)))
+            lines.append('pub open spec fn operands_%s(e: &%s) -> Seq<Ev> { Seq::<Ev>::empty()%s }' % (name, name, ''.join('.push(%s)' % x for x in evs)))
         lines.append('pub open spec fn operands(i: &Instr) -> Seq<Ev> {\n    match i {')
         for name, _ in vs:
             lines.append('        Instr::%s(e) => operands_%s(e),' % (name, name))
